@@ -212,12 +212,31 @@ pub fn judge_lib(lib_src: &str, dep_src: &str, lib_name: &str, cfg: &FrontCfg, c
     }
 }
 
+const LIB_EXTRA: &str = "
+pub fn lib_sum(n: u32) -> u32 {
+    array![1_u32, 2, n].into_iter().map(|x| x + 1).sum()
+}
+pub fn lib_closure(n: u32) -> u32 {
+    let add = |x: u32| x + n;
+    let twice = |x: u32| add(x) * 2;
+    twice(3) + array![n, 5].into_iter().fold(0, |a, b| a + b)
+}
+pub fn lib_match(n: u8) -> felt252 {
+    match n {
+        0 => 'zero',
+        1 => 'one',
+        2 => 'two',
+        _ => format!(\"{}\", n).len().into(),
+    }
+}
+";
+
 pub fn dependent_of(pc: &c01::ProgramCase, lib: &str) -> String {
     let e = &pc.program.funcs[pc.program.entry];
     let params: Vec<String> = e.params.iter().filter_map(|pa| if let Param::Val(n, t) = pa { Some(format!("{n}: {}", t.name(&pc.program))) } else { None }).collect();
     let args: Vec<String> = e.params.iter().filter_map(|pa| if let Param::Val(n, _) = pa { Some(n.clone()) } else { None }).collect();
     format!(
-        "fn dep_main({}) -> Array<felt252> {{\n    let mut out = {lib}::main({});\n    out.append(7);\n    out\n}}\n",
+        "fn dep_main({}) -> Array<felt252> {{\n    let mut out = {lib}::main({});\n    out.append(7);\n    out\n}}\nfn dep_extra(n: u32) -> felt252 {{\n    ({lib}::lib_sum(n) + {lib}::lib_closure(n)).into() + {lib}::lib_match(3)\n}}\n",
         params.join(", "),
         args.join(", ")
     )
@@ -228,7 +247,7 @@ impl Prop for C20 {
         "C20"
     }
     fn rule(&self) -> String {
-        "Mode A (2/3 of the cases): the dependent is a generated typed program, an e2e snippet or an example file \
+        "Mode A (2/3 of the cases): the dependent is a generated typed program, an e2e snippet, an example file, or (a third) a corelib-heavy program of 4-10 functions drawn from 39 that each lean on another corelib facility (iterator adapters, ByteArray / format!, Option / Result combinators, dictionaries, spans, integer traits, u256, hashes, EC, keccak, sha256, Serde, boxes, fixed arrays, ..), \
          compiled as a virtual crate in two databases that differ only in the core library's cache_file (blob from \
          generate_crate_cache on /repo's corelib, generated once per process). Mode B: the cached crate is a \
          generated library (a generated program as a real crate with overridden contents, edition 2024_07), its \
@@ -273,6 +292,9 @@ impl Prop for C20 {
                 let core_cached = ch.bool();
                 let mut pc = c01::gen_case(ch, 0);
                 pc.source = pc.source.replace("\nfn main(", "\npub fn main(");
+                // The library also carries functions whose own bodies define closures and use
+                // iterator adapters (their lowered bodies, closure types included, come from the blob).
+                pc.source.push_str(LIB_EXTRA);
                 let lib = format!("libx{}", hash_str(&pc.source) % 100_000);
                 let dep = dependent_of(&pc, &lib);
                 let a = json!({"mode": "library", "lib": pc.source, "dep": dep, "lib_name": lib, "config": cfg.to_json(), "core_cached": core_cached});
@@ -296,7 +318,21 @@ impl Prop for C20 {
                     Err((sig, what)) => Verdict::fail(sig, what, a),
                 };
             }
-            let (origin, source, settings) = if snippets.is_empty() || ch.chance(1, 2) {
+            let (origin, source, settings) = if ch.chance(1, 3) {
+                // A corelib-heavy dependent: 4-10 functions, each leaning on another corelib facility
+                // (iterators and their adapters, ByteArray / format!, Option / Result combinators,
+                // dictionaries, spans, integer traits, u256, hashes, EC, keccak, sha256, Serde, ..).
+                use crate::gens::corelib_heavy::{FUNCS, HEADER};
+                let k = 4 + ch.below(7);
+                let mut picked: Vec<usize> = (0..k).map(|_| ch.below(FUNCS.len())).collect();
+                picked.sort();
+                picked.dedup();
+                let mut src = HEADER.to_string();
+                for i in &picked {
+                    src.push_str(FUNCS[*i]);
+                }
+                ("corelib-heavy".to_string(), src, cairo::SETTINGS_2024_07)
+            } else if snippets.is_empty() || ch.chance(1, 2) {
                 let c = execs::pick_case(ch, &[], 10, 0);
                 ("generated".to_string(), c.source, cairo::SETTINGS_2024_07)
             } else {
